@@ -547,11 +547,11 @@ func appendString(dst, src []byte, encode bool) []byte {
 	// TODO: Encode only if length is lower with the string encoded
 
 	n := uint64(len(b))
-	nn := len(dst) - 1 // peek last byte
-	if nn >= 0 && dst[nn] != 0 {
-		dst = append(dst, 0)
-		nn++
-	}
+	// The length always starts a byte of its own. Reusing a trailing zero byte
+	// merges the length into whatever was written before it, which is only
+	// right when that byte was put there for this purpose.
+	dst = append(dst, 0)
+	nn := len(dst) - 1
 
 	dst = appendInt(dst, 7, n)
 	dst = append(dst, b...)
@@ -611,7 +611,7 @@ func (hp *HPACK) AppendHeader(dst []byte, hf *HeaderField, store bool) []byte {
 				}
 			}
 		} else if !store || hp.DisableDynamicTable { // with or without indexing
-			dst = append(dst, 0, 0)
+			dst = append(dst, 0)
 		} else {
 			dst = append(dst, literalByte)
 			hp.addDynamic(hf)
